@@ -578,6 +578,27 @@ func (ex *Exec) binop(op token.Token, t types.Type, x, y Value) Value {
 }
 
 func (ex *Exec) equal(x, y Value) *term.T {
+	// pointers travelling as uintptr compared with an integer (only 0 makes sense)
+	if t, ok := y.(*term.T); ok {
+		switch p := x.(type) {
+		case UPtr:
+			return ex.equal(p.P, y)
+		case Ptr:
+			if t.IsConst() && t.K == 0 {
+				return ex.C.Bool(p.Loc == nil)
+			}
+		case BPtr:
+			if t.IsConst() && t.K == 0 {
+				return ex.C.False
+			}
+		}
+	}
+	if _, ok := x.(*term.T); ok {
+		switch y.(type) {
+		case UPtr, Ptr, BPtr:
+			return ex.equal(y, x)
+		}
+	}
 	switch xv := x.(type) {
 	case *term.T:
 		if yv, ok := y.(*term.T); ok {
@@ -1050,6 +1071,32 @@ func (ex *Exec) builtin(b *ssa.Builtin, c *ssa.CallCommon, args []Value) Value {
 			r = ex.C.Ite(lt, av, r)
 		}
 		return r
+	case "Slice": // unsafe.Slice(ptr, n)
+		n := ex.toInt64(args[1].(*term.T))
+		p := args[0]
+		if up, ok := p.(UPtr); ok && up.Add == 0 {
+			p = up.P
+		}
+		switch p := p.(type) {
+		case Ptr:
+			if p.Vec != nil {
+				cn := ex.concreteInt(n, "unsafe.Slice length")
+				if int64(p.Idx)+cn > int64(len(p.Vec.E)) {
+					ex.Oblige(ex.C.False, "unsafe.Slice beyond the allocation")
+				}
+				return Slice{Vec: p.Vec, Off: ex.constInt(int64(p.Idx)), Len: ex.constInt(cn), Cap: ex.constInt(cn)}
+			}
+			if p.Loc != nil {
+				if cn := ex.concreteInt(n, "unsafe.Slice length"); cn <= 1 {
+					// a single object viewed as a one-element slice
+					vec := &Vec{E: []Value{*p.Loc}}
+					return Slice{Vec: vec, Off: ex.constInt(0), Len: ex.constInt(cn), Cap: ex.constInt(cn)}
+				}
+			}
+		case BPtr:
+			return Slice{Base: p.Base, Byte: true, Off: p.Idx, Len: n, Cap: n}
+		}
+		ex.unsupported(fmt.Sprintf("unsafe.Slice on %T", args[0]))
 	case "ssa:wrapnilchk":
 		if p, ok := args[0].(Ptr); ok && p.Loc == nil {
 			ex.Oblige(ex.C.False, "value method called via nil pointer")
